@@ -7,6 +7,12 @@ the same draw; a rejection must surface as exactly the configured class (default
 exception, a Warning class => one warning and the call proceeds, per-kind overrides), name
 the hint, start its culprits with the rejected object, and never be a desynchronisation or
 other non-violation exception.  Signal selection is modelled in Signal.tla.
+
+The explanation path itself (beartype/_check/error) is transcribed a second time in Cause.tla;
+TLC decides on MC_Cause that every rejection of the generated check is explained (no "no cause",
+no failure of the finder) for every hint kind, with containers that hold non-collection iterables
+beside the violating item; the rows are replayed and the path named by the real message is
+compared with the model's.
 """
 from __future__ import annotations
 
@@ -29,4 +35,16 @@ def run(rep, tier, seed):
     opts["signal_table"] = semreplay.signal_table(rep)
     tot = semreplay.replay(rep, rows, opts)
     report(rep, tot, "C03")
+    # the explanation path: Cause.tla / MC_Cause.tla (hostile neighbours, every hint kind), TLC decides
+    # Cause_Explains, the rows carry the path that the real message must name
+    crows = semreplay.build_cause_rows(rep, tier)
+    tot2 = semreplay.replay(rep, crows, {**opts, "spellings": 1, "reject_cap": 64 if tier == "quick" else 200,
+                                         "viol_confs": 0})
+    report(rep, tot2, "C03")
+    rep.add("explanation_paths_compared", tot2.get("cause_n", 0))
+    rep.add("explanation_paths_equal_to_model", tot2.get("cause_ok", 0))
+    if tot2.get("cause_drift"):
+        rep.cov["explanation_path_drift"] = tot2["cause_drift"]
+        rep.note(f"SPEC-DRIFT: {tot2['cause_drift']} of {tot2.get('cause_n', 0)} explained rejections name another path "
+                 f"than Cause.tla (message wording is not part of the property): {tot2['drift_ex'][:3]}")
     rep.cov["exhaustive"] = False
